@@ -306,7 +306,7 @@ func worldTokens(st reflect.Type) []string {
 
 // ---------------------------------------------------------------- canonical dumps
 
-func codes(b []byte) string {
+func togoCodes(b []byte) string {
 	if len(b) == 0 {
 		return "-"
 	}
@@ -371,7 +371,7 @@ func (c *canonSt) val(v reflect.Value) {
 	case reflect.Float64, reflect.Float32:
 		c.sb.WriteString(tyExpr(t) + ":" + strconv.FormatUint(math.Float64bits(v.Float()), 16))
 	case reflect.String:
-		c.sb.WriteString("str:" + codes([]byte(v.String())))
+		c.sb.WriteString("str:" + togoCodes([]byte(v.String())))
 	case reflect.Bool:
 		if v.Bool() {
 			c.sb.WriteString("bool:1")
@@ -384,7 +384,7 @@ func (c *canonSt) val(v reflect.Value) {
 			return
 		}
 		if t.Elem().Kind() == reflect.Uint8 {
-			c.sb.WriteString("bytes:" + codes(v.Bytes()))
+			c.sb.WriteString("bytes:" + togoCodes(v.Bytes()))
 			return
 		}
 		c.sb.WriteString("[")
@@ -469,9 +469,9 @@ func canonSexp(s zygo.Sexp, depth int) string {
 	case *zygo.SexpFloat:
 		return "f:" + strconv.FormatUint(math.Float64bits(x.Val), 16)
 	case *zygo.SexpStr:
-		return "s:" + codes([]byte(x.S))
+		return "s:" + togoCodes([]byte(x.S))
 	case *zygo.SexpSymbol:
-		return "y:" + codes([]byte(x.Name()))
+		return "y:" + togoCodes([]byte(x.Name()))
 	case *zygo.SexpChar:
 		return "c:" + strconv.Itoa(int(x.Val))
 	case *zygo.SexpBool:
@@ -480,7 +480,7 @@ func canonSexp(s zygo.Sexp, depth int) string {
 		}
 		return "b:0"
 	case *zygo.SexpRaw:
-		return "raw:" + codes(x.Val)
+		return "raw:" + togoCodes(x.Val)
 	case *zygo.SexpTime:
 		return "t:" + canonTime(x.Tm)[5:]
 	case *zygo.SexpSentinel:
